@@ -2,6 +2,7 @@ package c04
 
 import (
 	"fmt"
+	"math"
 	"os"
 	"path/filepath"
 	"strings"
@@ -108,13 +109,16 @@ func genCLI(t *rapid.T, cmds []string) cliCase {
 	case "subseq-step":
 		c.Start = rapid.IntRange(0, l).Draw(t, "s")
 		if rapid.IntRange(0, 5).Draw(t, "sb") == 0 {
-			c.Start = gen.Boundary(t, l, "sb2")
+			c.Start = bint(t, l, "sb2")
 		}
 		c.Len = rapid.IntRange(1, l+1).Draw(t, "n")
 		if c.Start >= 0 && c.Start < l && uni(t, 4, "fits") != 0 {
 			c.Len = rapid.IntRange(1, l-c.Start).Draw(t, "nfit")
 		}
 		c.Step = rapid.IntRange(1, 4).Draw(t, "step")
+		if uni(t, 8, "hugestep") == 0 {
+			c.Step = []int{math.MaxInt, math.MaxInt - 1, math.MaxInt/2 + 1}[uni(t, 3, "hs")]
+		}
 		if rapid.IntRange(0, 7).Draw(t, "withref") == 0 {
 			c.Ref = c.Ali.Rows[0].Name
 		}
@@ -192,8 +196,8 @@ func genCLI(t *rapid.T, cmds []string) cliCase {
 						e = bound
 					}
 				} else {
-					s = gen.Boundary(t, bound, "bs")
-					e = gen.Boundary(t, bound, "be")
+					s = bint(t, bound, "bs")
+					e = bint(t, bound, "be")
 				}
 				b.Starts = append(b.Starts, s)
 				b.Ends = append(b.Ends, e)
@@ -212,7 +216,7 @@ func genCLI(t *rapid.T, cmds []string) cliCase {
 		if rapid.Bool().Draw(t, "trimvalid") {
 			c.Trim = rapid.IntRange(0, l-1).Draw(t, "trim")
 		} else {
-			c.Trim = gen.Boundary(t, l, "trimb")
+			c.Trim = bint(t, l, "trimb")
 		}
 		c.FromStart = rapid.Bool().Draw(t, "fromstart")
 	case "concat":
@@ -350,7 +354,7 @@ func itoas(v []int) []string {
 func modelWindow(o *pbt.Outcome, rows []gen.Row, s, n int, reverse bool) expect {
 	l := len(rows[0].Seq)
 	valid := winValid(l, s, n)
-	overhang := s >= 0 && s <= l && n >= 0 && s+n > l
+	overhang := s >= 0 && s <= l && n >= 0 && n > l-s
 	if !reverse {
 		switch {
 		case valid && n > 0:
@@ -454,7 +458,7 @@ func checkCLI(dir string, c cliCase) (o pbt.Outcome, err error) {
 			ref, known := rowByName(rows, c.Ref)
 			p := nonGap(ref.Seq)
 			switch {
-			case !known || c.Start < 0 || c.Len < 0 || c.Start+c.Len > len(p):
+			case !known || c.Start < 0 || c.Len < 0 || c.Len > len(p)-c.Start:
 				exp = fails
 				o.Class("subseq-ref:refused")
 			case c.Len == 0:
@@ -484,9 +488,18 @@ func checkCLI(dir string, c cliCase) (o pbt.Outcome, err error) {
 			case winValid(l, c.Start, c.Len):
 				var all []gen.Row
 				k := 0
-				for s := c.Start; s+c.Len <= l; s += c.Step {
+				for s := c.Start; s <= l-c.Len; s += c.Step {
 					all = append(all, takeCols(rows, span(s, s+c.Len))...)
 					k++
+					if c.Step > l-s { // the next start is past the end (and the sum may overflow)
+						break
+					}
+				}
+				if isHuge(c.Step) {
+					o.Class("subseq-step:huge-step")
+				}
+				if c.Step > math.MaxInt-c.Start-c.Len {
+					o.Class("subseq-step:start+step+length-overflows")
 				}
 				exp = ok(all)
 				o.Class("subseq-step:%d-windows", min(k, 4))
